@@ -77,10 +77,16 @@ async fn kill(how: &str, s: &mut BiStream, conn: &RawConn) {
         "finish" => {
             let _ = s.finish().await;
         }
-        "partial" => {
-            // the length prefix and type of a frame, then the stream ends
+        "partial" | "partial3" | "partial8" => {
+            // the length prefix and type of a frame (or only a part of the prefix), then the stream ends
             use tokio::io::AsyncWriteExt;
-            let _ = s.write().write_all(&[0, 0, 0, 0, 0, 0, 0, 64, 4, 1, 2]).await;
+            let bytes = [0u8, 0, 0, 0, 0, 0, 0, 64, 4, 1, 2];
+            let n = match how {
+                "partial3" => 3,
+                "partial8" => 8,
+                _ => bytes.len(),
+            };
+            let _ = s.write().write_all(&bytes[..n]).await;
             let _ = s.write().flush().await;
             let _ = s.finish().await;
         }
@@ -523,19 +529,19 @@ fn cells(tier: &str) -> Vec<Value> {
             }
         }
     }
-    for how in ["close", "reset", "finish", "drop", "partial", "abort"] {
+    for how in ["close", "reset", "finish", "drop", "partial", "partial3", "partial8", "abort"] {
         for subs in [1usize, 2] {
             v.push(json!({"cell": id, "victim": "publisher", "how": how, "healthy_subscribers": subs}));
             id += 1;
         }
     }
-    for how in ["close", "abort", "finish", "drop", "stop", "reset", "partial"] {
+    for how in ["close", "abort", "finish", "drop", "stop", "reset", "partial", "partial3", "partial8"] {
         for when in ["idle", "in-flight", "after-exchange"] {
             v.push(json!({"cell": id, "victim": "replier", "how": how, "when": when}));
             id += 1;
         }
     }
-    for how in ["close", "abort", "finish", "drop", "stop", "reset", "partial"] {
+    for how in ["close", "abort", "finish", "drop", "stop", "reset", "partial", "partial3", "partial8"] {
         for when in ["idle", "reply-after-death"] {
             v.push(json!({"cell": id, "victim": "requestor", "how": how, "when": when}));
             id += 1;
@@ -570,7 +576,7 @@ pub async fn run(tier: &str, replaying: bool) -> ! {
     finish(
         rep,
         outs,
-        "every cell of victim role x failure x moment on one real server: subscriber victim {connection close, STOP_SENDING, STOP_SENDING+RESET, stream dropped} x {idle, after consuming 5 messages, never reading until the publisher is blocked by flow control (>1 s)} x {1,2} healthy subscribers x victim registered {first, last}: the healthy subscribers must receive exactly the sequence sent after the warm-up barrier (incl. everything sent while the topic was blocked) and a subscriber joining afterwards is served; publisher victim {close, RESET, finish, drop, half a frame then end, abort} x {1,2} subscribers: the other publisher's 26 messages all arrive in order; replier victim {close, abort, finish, drop, STOP_SENDING only, RESET only, half a frame} x {idle, request in flight, after one exchange}: a new replier is refused only with replier-already-bound and is bound within 20 s, then serves the healthy requestor; requestor victim (same failures) x {idle, its request answered after its death}: the other requestor's exchanges with the still-bound replier keep working",
+        "every cell of victim role x failure x moment on one real server: subscriber victim {connection close, STOP_SENDING, STOP_SENDING+RESET, stream dropped} x {idle, after consuming 5 messages, never reading until the publisher is blocked by flow control (>1 s)} x {1,2} healthy subscribers x victim registered {first, last}: the healthy subscribers must receive exactly the sequence sent after the warm-up barrier (incl. everything sent while the topic was blocked) and a subscriber joining afterwards is served; publisher victim {close, RESET, finish, drop, half a frame / 3 bytes / 8 bytes of a frame then end, abort} x {1,2} subscribers: the other publisher's 26 messages all arrive in order; replier victim {close, abort, finish, drop, STOP_SENDING only, RESET only, half a frame} x {idle, request in flight, after one exchange}: a new replier is refused only with replier-already-bound and is bound within 20 s, then serves the healthy requestor; requestor victim (same failures) x {idle, its request answered after its death}: the other requestor's exchanges with the still-bound replier keep working",
         "fault = a real peer failing or departing; every listed combination is run",
         json!({}),
         replaying,
